@@ -62,36 +62,58 @@ func c31Draw(rt *rapid.T) c31Case {
 }
 
 
-// c31AbandonedCommit reports whether every honest node that failed to make
-// progress is in this exact situation: at its current height it holds +2/3
+// c31AbandonedCommit reports whether the lack of progress is explained by this
+// exact situation: some honest node holds, at its current height, +2/3
 // precommits for a block at an earlier round (so it had entered the commit
-// step), but a round skip (+2/3-any votes of a later round) took it out of
-// the commit step; nothing re-triggers the commit once its peers have moved on.
+// step) but a round skip (+2/3-any votes of a later round) took it out of the
+// commit step, and nothing re-triggers the commit once its peers have moved
+// on. Every other honest node that did not progress must be ahead of those
+// nodes and unable to form a quorum without them (the byzantine validators are
+// silent in the suffix).
 func c31AbandonedCommit(net *ec.Net, from map[int]int64) bool {
-	stuck := 0
+	abandoned := map[int]bool{}
+	var minAbandonedHeight int64 = -1
 	for _, i := range net.Honest() {
 		nd := net.Nodes[i]
 		if nd.BS.Height() > from[i] {
 			continue
 		}
-		stuck++
 		rs := nd.CS.GetRoundState()
 		if rs.Votes == nil || rs.Step == cstypes.RoundStepCommit {
-			return false
+			continue
 		}
-		found := false
 		for r := 0; r < rs.Round; r++ {
 			if pc := rs.Votes.Precommits(r); pc != nil {
 				if bid, ok := pc.TwoThirdsMajority(); ok && len(bid.Hash) != 0 {
-					found = true
+					abandoned[i] = true
 				}
 			}
 		}
-		if !found {
+		if abandoned[i] && (minAbandonedHeight < 0 || rs.Height < minAbandonedHeight) {
+			minAbandonedHeight = rs.Height
+		}
+	}
+	if len(abandoned) == 0 {
+		return false
+	}
+	var total, others int64
+	for i, p := range net.Powers {
+		total += p
+		if net.Nodes[i] != nil && !abandoned[i] {
+			others += p
+		}
+	}
+	for _, i := range net.Honest() {
+		if abandoned[i] || net.Nodes[i].BS.Height() > from[i] {
+			continue
+		}
+		// a non-abandoned node that did not progress: it must be ahead of the
+		// abandoned ones, and the remaining honest power must be short of a quorum
+		if net.Nodes[i].CS.GetRoundState().Height <= minAbandonedHeight || 3*others > 2*total {
 			return false
 		}
 	}
-	return stuck > 0
+	return true
 }
 
 // c31Apply applies schedule actions to the network, checking safety after each.
@@ -800,6 +822,15 @@ func c31RelockExec(ctx *vk.Ctx, c c31Relock) error {
 		ok = true
 	}
 	if !ok {
+		if os.Getenv("VERIF_DEBUG") != "" {
+			for _, i := range net.Honest() {
+				rs := net.Nodes[i].CS.GetRoundState()
+				fmt.Printf("node %d store=%d: %s\n", i, net.Nodes[i].BS.Height(), rs.StringIndented("  "))
+				if tk, ok := net.Nodes[i].Ticker.Pending(); ok {
+					fmt.Printf("  pending timeout %+v\n", tk)
+				}
+			}
+		}
 		return fmt.Errorf("no progress in the synchronous suffix (%d iterations): before %v after %v", iters, from, net.Heights())
 	}
 	return nil
